@@ -610,6 +610,45 @@ def run_scenarios(pid, tier, seed):
     return 0
 
 # ---------------------------------------------------------------------------------------
+# a subset of the scenarios of Front.tla played for another property (C04: the state a completion may name)
+# ---------------------------------------------------------------------------------------
+def front_stage(pid, keep, invs, rundir):
+    """returns (violation or None, number of scenarios, regenerate command)"""
+    core.build(['procx'])
+    allsc = f'{rundir}/front_all.ndjson'
+    gen_vectors('FrontGen.tla', allsc, rundir)
+    lines = [l for l in open(allsc).read().splitlines() if keep(json.loads(l))]
+    scen = f'{rundir}/front_scen.ndjson'
+    open(scen, 'w').write('\n'.join(lines) + '\n')
+    meta = {json.loads(l)['sid']: json.loads(l) for l in lines}
+    obs = f'{rundir}/front_obs.ndjson'
+    env = dict(os.environ, VERIF_REPO=os.environ.get('VERIF_REPO', '/repo'))
+    cmd = f'{V}/build/procx -build -bin {V}/build/resonate -scenarios {scen} -out {obs} -dir {rundir}/fscratch -par 16'
+    p = subprocess.run(cmd, shell=True, capture_output=True, text=True, timeout=3000, env=env)
+    if p.returncode != 0 or not os.path.exists(obs):
+        print(p.stdout[-1500:], p.stderr[-1500:]); core.die('procx failed (could the server binary be built?)')
+    out = []
+    for l in open(obs):
+        e = json.loads(l)
+        if e['e'] == 'begin':
+            m = meta[e['sid']]
+            for k in ('ep', 'field', 'raw', 'expect'):
+                e[k] = m[k]
+            e.pop('args', None)
+        if e['e'] == 'end':
+            e['logtail'] = e.get('logtail', '')[:300]
+        out.append(json.dumps(small_numbers(e)))
+    tf = f'{rundir}/front_trace.ndjson'
+    open(tf, 'w').write('\n'.join(out) + '\n')
+    r = tlc_trace('FrontTrace.tla', tf, invs, f'{rundir}/fv', extra_consts='  Known = {}\n')
+    if r['error']:
+        print(r['error']); core.die('TLC could not validate the front-end observations (machinery error)')
+    if r['violated']:
+        r['module'] = 'FrontTrace.tla'
+        return r, len(lines), cmd
+    return None, len(lines), cmd
+
+# ---------------------------------------------------------------------------------------
 # C06, process level: behaviours of Durable.tla played by procx against the real binary
 # ---------------------------------------------------------------------------------------
 def durable_stage(pid, tier, seed, rundir):
